@@ -247,13 +247,13 @@ def _report(ctx, found, diffs, as_violation):
     return paths
 
 
-def escalate(ctx, diffs, found, stats, budget=90.0):
+def escalate(ctx, diffs, found, stats, budget=60.0):
     """a table entry differs but the first batch shows no input for that codec family: more rounds for that family only (an entry of an encoder
     table such as gsm_NRFAC moves one output in thousands), until an input is found or the budget is spent"""
     import time
     t0 = time.time()
     rounds = 0
-    while time.time() - t0 < budget and rounds < 14:
+    while time.time() - t0 < budget and rounds < 10:
         have = {family(j["key"]) for (j, impl, model, k, lines) in found if impl is not None and k is not None}
         missing = {d[0] for d in diffs} - have
         if not missing:
